@@ -1,4 +1,4 @@
-(* extraction of the C18 model: ExtrOcamlBasic only, no directives of our own *)
+(* extraction of the C18 models (Tmpl.v: the code as it stands; Tmpl2.v: the corrected text format): ExtrOcamlBasic only *)
 From Coq Require Import ExtrOcamlBasic.
-From V Require Import Walk Fm94 Fm94Exp Tmpl.
-Extraction "c18_model.ml" save_text load_text copy tcompare gexpand norm digits_val print_Z quant vtype_of nbits_inc.
+From V Require Import Walk Fm94 Fm94Exp Tmpl Tmpl2.
+Extraction "c18_model.ml" save_text load_text save2_text load2_text copy tcompare gexpand norm digits_val print_Z quant vtype_of nbits_inc.
